@@ -54,7 +54,7 @@ MANIFEST = {
     "the statement, the correspondence harness (sampling).",
     "technique": "Lean 4 proof over a hand-written model + differential correspondence with the real classes",
     "design_ref": "DESIGN.md §5 C13",
-    "ready": False,
+    "ready": True,
 }
 
 ERRS = None
